@@ -165,6 +165,11 @@ Section Eq.
     = state_at_time S R tstep (emb_dyn i ty (fun p => Some (emb_set_itv p)) o) t.
   Proof. reflexivity. Qed.
 
+  (* ---- EnvironmentObstacle: the stored region at every time step *)
+  Theorem src_env_occ_eq i ty (o : env_obs R) t :
+    Some (src_env_occ R o t) = occupancy_at_time S R tstep place (Env i ty (eo_shape o)) t.
+  Proof. reflexivity. Qed.
+
   (* ---- every model obstacle of the static / dynamic kind is the embedding of a source object, so the lemmas above
      cover the model's whole dispatch on those roles (phantom / environment obstacles delegate to [lookup] / return the
      stored region; they have no state) *)
